@@ -98,7 +98,7 @@ func (e *Env) modelDecodeOne(l *facts.Level, rule string) *decodeOneModel {
 	who = fname(m.Fn)
 	pos := e.P.Pos(m.Fn.Pos())
 	sf := e.P.SSAFunc(m.Fn)
-	leaves, err := ir.Leaves(sf, ir.LeafOptions{Forward: true, Effects: true})
+	leaves, err := ir.Leaves(sf, ir.LeafOptions{Forward: true, Effects: true, Inline: e.inlineHelpers()})
 	if err != nil {
 		c.Undecided(rule, who, pos, err.Error())
 		return m
